@@ -127,6 +127,16 @@ class _StrInterp:
                 return l_ % (tuple(r_) if isinstance(r_, list) else r_)
         if isinstance(e, ast.UnaryOp) and isinstance(e.op, ast.Not):
             return not self.ev(e.operand)
+        if isinstance(e, ast.BoolOp):
+            # Python's value semantics of and / or
+            val = None
+            for i, x in enumerate(e.values):
+                val = self.ev(x)
+                if isinstance(e.op, ast.Or) and val:
+                    return val
+                if isinstance(e.op, ast.And) and not val:
+                    return val
+            return val
         if isinstance(e, ast.IfExp):
             return self.ev(e.body) if self.ev(e.test) else self.ev(e.orelse)
         if isinstance(e, ast.Compare) and len(e.ops) == 1:
